@@ -239,7 +239,7 @@ func canon(o *observation, an *analysis) string {
 func main() {
 	env, rep := vh.Parse("C06")
 	reexecForRaceLog(env)
-	if *flagChild != "" || *flagChildD42 || *flagChildD70 {
+	if *flagChild != "" || *flagChildD42 || *flagChildD70 || *flagChildD71 {
 		childMain(env)
 		return
 	}
